@@ -37,7 +37,7 @@ pub fn gen_case(rng: &mut Rng, idx: usize, thorough: bool) -> Value {
     }
     let (g, texts) = eng::gen_grammar(rng, idx);
     json!({"grammar": g.to_json(), "texts": texts.iter().map(|t| crate::vocab::hex(t)).collect::<Vec<_>>(),
-           "vocab_kind": idx % 3, "canonical": idx % 5 == 4, "seed": rng.next() % 1_000_000_000, "steps": steps})
+           "vocab_kind": idx % 3, "canonical": idx % 5 >= 3, "seed": rng.next() % 1_000_000_000, "steps": steps})
 }
 
 /// every token: validate on the live engine (read-only) and commit on a clone
@@ -72,6 +72,12 @@ pub fn oracle_state(w: &World, m: &mut Matcher, mask: &[u32], canonical: bool, r
         if commit_all || rng.chance(1, 8) || exp {
             let mut c = m.deep_clone();
             let committed = c.consume_token(t).is_ok();
+            // validation and commit must agree on every single token, also in a canonically forced state
+            // (the documented exception narrows the mask, not what validate_tokens reports)
+            if v != committed {
+                rep.fail("oracle", "c01:validate-vs-commit", format!("step {step}: token {t} ({}) validate_tokens={v} but commit on a clone {}", hex_or_underscore(&w.words[t as usize]), if committed { "succeeds" } else { "fails" }), repro.clone());
+                ok = false;
+            }
             if forced_single {
                 if exp && !committed {
                     rep.fail("oracle", "c01:mask-not-committable", format!("step {step}: forced token {t} in mask but commit fails"), repro.clone());
